@@ -147,6 +147,8 @@ var failStmts = []string{
 	"continue",
 	// the rule reaches its return, but the value (read from an unexported field) cannot be handed out
 	"zh = O.hid\n  return zh",
+	// a failure whose error text is larger than 64 KB
+	"bigboom()",
 	// failures inside an else branch and inside an else-if condition
 	"if ff {\n    zz = 1\n  } else {\n    O.Boom()\n  }",
 	"if ff {\n    zz = 1\n  } else if nofunc() > 1 {\n    zz = 2\n  }",
@@ -309,6 +311,7 @@ func (e *schedEnv) apis() map[string]interface{} {
 		"STALE": func(n string) { e.log.Add("STALE", n, 0) },
 		"FX":    func(n string) { e.log.Add("F", n, 0) },
 		"cgate": func(n string) { e.gates.Enter(n + "#c"); e.log.Add("CX", n, 0) },
+		"bigboom": func() { panic("a very long failure text: " + strings.Repeat("0123456789abcdef", 5000)) },
 		"pf": func(n string) {
 			if e.priorFails[n] {
 				panic("injected failure in the earlier call")
@@ -463,7 +466,8 @@ func genRules(t *rapid.T, minN, maxN int, failP, tagP, retP int) []models.Rule {
 			big = 3
 		}
 		if pct(t, "big_rule_set", big) {
-			minN, maxN = 40, 300
+			minN = uni(t, "big_n", 40, 600)
+			maxN = minN
 			failP, tagP = 1, tagP/4
 		}
 	}
@@ -485,7 +489,7 @@ func genRules(t *rapid.T, minN, maxN int, failP, tagP, retP int) []models.Rule {
 			// blanks are part of a rule name: " r3" and "r3" are different names
 			name = []string{" " + name, name + " ", " " + name + " "}[uni(t, fmt.Sprintf("padkind%d", i), 0, 2)]
 		case pct(t, fmt.Sprintf("oddname%d", i), 6):
-			name = []string{name + ".x", "R" + name[1:], name + "-b", "规则" + name}[uni(t, fmt.Sprintf("oddkind%d", i), 0, 3)]
+			name = []string{name + ".x", "R" + name, name + "-b", "规则" + name}[uni(t, fmt.Sprintf("oddkind%d", i), 0, 3)]
 		}
 		r := models.Rule{Name: name, Sal: genSal(t, fmt.Sprintf("sal%d", i))}
 		if pct(t, fmt.Sprintf("nosal%d", i), 10) {
